@@ -5,6 +5,10 @@ tinyfo/ast.go has the same scheme):
   if c then t else f        ↦  frt.IfElse(c, (func () T { t }), (func () T { f }))
   if c then b   (statement) ↦  frt.IfOnly(c, (func () { b }))
   f a   (f takes more)      ↦  (func (_r0 …) T { return f(a, _r0, …) })        -- fcPartialApplyGo
+                               with `bind` (fc after the fix of D9): a given argument that is not inert
+                               (a literal, a variable, a field of a variable) is evaluated first:
+                               (func () func(_r0 …) T { _p0 := a; return func (_r0 …) T { return f(_p0, _r0 …) } })()
+                               without `bind` (tinyfo): every given argument stays inside the closure
   a |> f                    ↦  frt.Pipe(a, f)
   match in return position  ↦  switch _v := (t).(type) { case U_C: x := _v.Value; … }
   match elsewhere           ↦  (func () T { switch … })()
@@ -16,52 +20,74 @@ namespace Folang.Sem
 
 def restNames (n : Nat) : List String := (List.range n).map (fun i => "_r" ++ toString i)
 
+def pName (i : Nat) : String := "_p" ++ toString i
+
+/-- argument forms whose evaluation runs no code of the program (isInertArg of fc/expr_to_go.fo,
+restricted to the forms of the fragment) -/
+def isInert : Expr → Bool
+  | .lit _ => true
+  | .var _ => true
+  | .prim (.fld _) [.var _] => true
+  | _ => false
+
+/-- the given arguments of a partial application from position `i` on: what the closure body
+mentions for each, and the bindings that evaluate the others beforehand (partialArgGo) -/
+def paArgs : Nat → List Expr → List GExpr → List GExpr × List GStmt
+  | i, a :: as, g :: gs =>
+    let r := paArgs (i + 1) as gs
+    if isInert a then (g :: r.1, r.2) else (.var (pName i) :: r.1, .define (pName i) g :: r.2)
+  | _, _, _ => ([], [])
+
 mutual
-def lowerE : Expr → GExpr
+def lowerE (bind : Bool) : Expr → GExpr
   | .lit l => .lit l
   | .var x => .var x
-  | .prim p args => .prim p (lowerL args)
-  | .and a b => .and (lowerE a) (lowerE b)
-  | .or a b => .or (lowerE a) (lowerE b)
-  | .ite c t f => .ifElse (lowerE c) (.funcLit [] (lowerB t)) (.funcLit [] (lowerB f))
+  | .prim p args => .prim p (lowerL bind args)
+  | .and a b => .and (lowerE bind a) (lowerE bind b)
+  | .or a b => .or (lowerE bind a) (lowerE bind b)
+  | .ite c t f => .ifElse (lowerE bind c) (.funcLit [] (lowerB bind t)) (.funcLit [] (lowerB bind f))
   | .call f arity args =>
     if args.length < arity then
       let rs := restNames (arity - args.length)
-      .funcLit rs (.mk [] (.ret (.callFn f (lowerL args ++ rs.map GExpr.var))))
-    else .callFn f (lowerL args)
-  | .callv f args => .callVal (lowerE f) (lowerL args)
-  | .lam ps b => .funcLit ps (lowerB b)
-  | .pipe a f => .pipe (lowerE a) (lowerE f)
-  | .hof h f args => .hof h (lowerE f) (lowerL args)
-  | .matchE t arms => .callVal (.funcLit [] (.mk [] (.switch (lowerE t) (lowerArms arms)))) []
-  | .matchSE t arms => .callVal (.funcLit [] (.mk [] (.switchS (lowerE t) (lowerSArms arms)))) []
-def lowerL : List Expr → List GExpr
+      if bind then
+        let pa := paArgs 0 args (lowerL bind args)
+        let clo := GExpr.funcLit rs (.mk [] (.ret (.callFn f (pa.1 ++ rs.map GExpr.var))))
+        if pa.2.isEmpty then clo else .callVal (.funcLit [] (.mk pa.2 (.ret clo))) []
+      else .funcLit rs (.mk [] (.ret (.callFn f (lowerL bind args ++ rs.map GExpr.var))))
+    else .callFn f (lowerL bind args)
+  | .callv f args => .callVal (lowerE bind f) (lowerL bind args)
+  | .lam ps b => .funcLit ps (lowerB bind b)
+  | .pipe a f => .pipe (lowerE bind a) (lowerE bind f)
+  | .hof h f args => .hof h (lowerE bind f) (lowerL bind args)
+  | .matchE t arms => .callVal (.funcLit [] (.mk [] (.switch (lowerE bind t) (lowerArms bind arms)))) []
+  | .matchSE t arms => .callVal (.funcLit [] (.mk [] (.switchS (lowerE bind t) (lowerSArms bind arms)))) []
+def lowerL (bind : Bool) : List Expr → List GExpr
   | [] => []
-  | e :: es => lowerE e :: lowerL es
-def lowerB : Body → GBody
-  | .mk ss tail => .mk (lowerSs ss) (lowerT tail)
-def lowerT : Tail → GTail
-  | .ret e => .ret (lowerE e)
-  | .matchT t arms => .switch (lowerE t) (lowerArms arms)
-  | .matchST t arms => .switchS (lowerE t) (lowerSArms arms)
-def lowerSs : List Stmt → List GStmt
+  | e :: es => lowerE bind e :: lowerL bind es
+def lowerB (bind : Bool) : Body → GBody
+  | .mk ss tail => .mk (lowerSs bind ss) (lowerT bind tail)
+def lowerT (bind : Bool) : Tail → GTail
+  | .ret e => .ret (lowerE bind e)
+  | .matchT t arms => .switch (lowerE bind t) (lowerArms bind arms)
+  | .matchST t arms => .switchS (lowerE bind t) (lowerSArms bind arms)
+def lowerSs (bind : Bool) : List Stmt → List GStmt
   | [] => []
-  | s :: ss => lowerS s :: lowerSs ss
-def lowerS : Stmt → GStmt
-  | .let1 x e => .define x (lowerE e)
-  | .let2 x y e => .define2 x y (lowerE e)
-  | .exec e => .exec (lowerE e)
-  | .ifonly c b => .exec (.ifOnly (lowerE c) (.funcLit [] (lowerB b)))
-def lowerArms : List Arm → List GCase
+  | s :: ss => lowerS bind s :: lowerSs bind ss
+def lowerS (bind : Bool) : Stmt → GStmt
+  | .let1 x e => .define x (lowerE bind e)
+  | .let2 x y e => .define2 x y (lowerE bind e)
+  | .exec e => .exec (lowerE bind e)
+  | .ifonly c b => .exec (.ifOnly (lowerE bind c) (.funcLit [] (lowerB bind b)))
+def lowerArms (bind : Bool) : List Arm → List GCase
   | [] => []
-  | .mk c bind b :: rest => .mk c bind (lowerB b) :: lowerArms rest
-def lowerSArms : List SArm → List GSCase
+  | .mk c bd b :: rest => .mk c bd (lowerB bind b) :: lowerArms bind rest
+def lowerSArms (bind : Bool) : List SArm → List GSCase
   | [] => []
-  | .mk p b :: rest => .mk p (lowerB b) :: lowerSArms rest
+  | .mk p b :: rest => .mk p (lowerB bind b) :: lowerSArms bind rest
 end
 
-def lowerFun (d : FunDef) : GFunDef := { name := d.name, params := d.params, body := lowerB d.body }
+def lowerFun (bind : Bool) (d : FunDef) : GFunDef := { name := d.name, params := d.params, body := lowerB bind d.body }
 
-def lowerProg (P : Prog) : GProg := P.map lowerFun
+def lowerProg (bind : Bool) (P : Prog) : GProg := P.map (lowerFun bind)
 
 end Folang.Sem
